@@ -342,18 +342,12 @@ def _reseed(job, salt):
     random.seed(x)
 
 
-def _reparse(cls, tok, toks, via, rp, argmod, twice=False):
+def _reparse(cls, tok, toks, via, rp, argmod):
     """the two re-parses (list, string) of one token stream, audit class E: the tokens are handed over as the CALLER'S
     OWN list object; the string is joined from that same list AFTER the list call (a call that edits its argument
-    spoils the next parse); the list is then overwritten in place BEFORE anything is read from the returned maze.
-    `twice` (histories): every call is made twice, the arrays of the first result are overwritten in place by the
-    caller, the second result is logged."""
+    spoils the next parse); the list is then overwritten in place BEFORE anything is read from the returned maze."""
     L = list(toks)
     r2, y = mz.outcome(lambda: cls.from_tokens(L, tok))
-    if twice:
-        if r2 == "ok":
-            _scramble_maze(y)
-        r2, y = mz.outcome(lambda: cls.from_tokens(L, tok))
     if L != list(toks):
         argmod.append(via)
     S = " ".join(L)
@@ -363,10 +357,6 @@ def _reparse(cls, tok, toks, via, rp, argmod, twice=False):
         r2, y = mz.outcome(lambda: _proj_safe(y))
     rp.append(dict(via=via, inp="list", res=r2, maze=y if r2 == "ok" else EMPTY_MAZE))
     r2, y = mz.outcome(lambda: cls.from_tokens(S, tok))
-    if twice:
-        if r2 == "ok":
-            _scramble_maze(y)
-        r2, y = mz.outcome(lambda: cls.from_tokens(S, tok))
     if r2 == "ok":
         r2, y = mz.outcome(lambda: _proj_safe(y))
     rp.append(dict(via=via, inp="str", res=r2, maze=y if r2 == "ok" else EMPTY_MAZE))
@@ -561,7 +551,8 @@ def _session_tok(job):
     given order (decreasing, scrambled, A-B-A); between observations the objects are USED (vocabulary properties,
     encode/decode).  Per maze an ordinary "rt" record:
       * as_tokens is called twice; the first result is emptied in place by the caller, the second one is logged;
-      * from_tokens is called twice on the SAME list object (and twice on the same string), the second result is logged;
+      * from_tokens is called twice on the SAME list object (and twice on the same string); the arrays of the first
+        returned maze are overwritten in place by the caller, the second result is logged;
       * then the list objects are overwritten in place with the PREVIOUS maze's tokens and parsed again: a second
         "rt" record for the previous maze (src = history-modified-list)."""
     n_max = max(j["n"] for j in job["mazes"])
@@ -1304,7 +1295,7 @@ def main(chk: lib.Check) -> int:
         chk.notes["solutions_ge_128_cells"] = sum(1 for x in rts if len(x["maze"]["sol"]) >= 128)
         chk.notes["solutions_ge_256_cells"] = sum(1 for x in rts if len(x["maze"]["sol"]) >= 256)
         chk.notes["max_dataset_size"] = max(x["n"] for x in recs if x["t"] == "ds")
-        chk.notes["history"] = "ONE legacy + ONE modular tokenizer object over mazes of decreasing / scrambled / A-B-A / increasing sizes (used via vocabulary properties and encode/decode in between); as_tokens twice (first result emptied by the caller); from_tokens twice on the same list object and again after the list was overwritten in place; ONE dataset object with as_tokens under different limit/join, larger first, results emptied by the caller"
+        chk.notes["history"] = "ONE legacy + ONE modular tokenizer object over mazes of decreasing / scrambled / A-B-A / increasing sizes (used via vocabulary properties and encode/decode in between); as_tokens twice (first result emptied by the caller); from_tokens twice on the same list object (the arrays of the first returned maze overwritten in place by the caller) and again after the list was overwritten in place; ONE dataset object with as_tokens under different limit/join, larger first, results emptied by the caller"
         chk.notes["multi_digit_records"] = sum(1 for x in rts if x["maze"]["R"] > 10)
         chk.notes["one_cell_paths"] = sum(1 for x in rts if len(x["maze"]["sol"]) == 1)
         chk.notes["two_cell_paths"] = sum(1 for x in rts if len(x["maze"]["sol"]) == 2)
